@@ -301,6 +301,7 @@ fn module_symbols(arch: Arch, os: OsKind, m: &ModSpec, adversarial: bool) -> (Ve
     if chance("dump.sym.origins", 1, 2) {
         s.push_str("INLINE_ORIGIN 0 inlined_helper\nINLINE_ORIGIN 1 another_inlinee\n");
     }
+    let inline_shape = if adversarial && chance("dump.sym.inline_weird", 1, 3) { 1 + ch("dump.sym.inline_shape", 4) } else { 0 };
     let stride: u64 = [0x100, 0x40, 0x400][ch("dump.sym.stride", 3) as usize];
     let nfuncs = ((m.size as u64 / stride).min(96)).max(1);
     let mut cfi = String::new();
@@ -330,8 +331,40 @@ fn module_symbols(arch: Arch, os: OsKind, m: &ModSpec, adversarial: bool) -> (Ve
         s.push_str(&format!("FUNC {:x} {:x} {:x} {}\n", addr, size, params, fname));
         if i % 2 == 0 {
             if i % 4 == 0 {
-                s.push_str(&format!("INLINE 0 {} 0 0 {:x} {:x}\n", 10 + i, addr + 4, 8));
-                s.push_str(&format!("INLINE 1 {} 1 1 {:x} {:x}\n", 20 + i, addr + 6, 4));
+                match inline_shape {
+                    0 => {
+                        s.push_str(&format!("INLINE 0 {} 0 0 {:x} {:x}\n", 10 + i, addr + 4, 8));
+                        s.push_str(&format!("INLINE 1 {} 1 1 {:x} {:x}\n", 20 + i, addr + 6, 4));
+                    }
+                    // the unusual nestings cover the whole function, so that every frame in it
+                    // expands them
+                    1 => {
+                        // a record at the deepest nesting level the format can express
+                        s.push_str(&format!("INLINE 0 {} 0 0 {:x} {:x}\n", 10 + i, addr, size));
+                        s.push_str(&format!("INLINE 4294967295 {} 1 1 {:x} {:x}\n", 20 + i, addr, size));
+                        hot.push(addr);
+                    }
+                    2 => {
+                        // a nesting level without a record
+                        s.push_str(&format!("INLINE 0 {} 0 0 {:x} {:x}\n", 10 + i, addr, size));
+                        s.push_str(&format!("INLINE 2 {} 1 1 {:x} {:x}\n", 20 + i, addr, size));
+                        s.push_str(&format!("INLINE 1000000 {} 1 1 {:x} {:x}\n", 30 + i, addr, size));
+                        hot.push(addr);
+                    }
+                    3 => {
+                        // a deep chain of real levels
+                        for d in 0..48 {
+                            s.push_str(&format!("INLINE {} {} {} {} {:x} {:x}\n", d, 10 + d, d % 2, d % 2, addr, size));
+                        }
+                        hot.push(addr);
+                    }
+                    _ => {
+                        // only a deep level, nothing at level 0; and a record nested in itself
+                        s.push_str(&format!("INLINE 4294967295 {} 1 1 {:x} {:x}\n", 20 + i, addr, size));
+                        s.push_str(&format!("INLINE 7 {} 1 1 {:x} {:x} {:x} {:x}\n", 20 + i, addr, size, addr, size));
+                        hot.push(addr);
+                    }
+                }
             }
             s.push_str(&format!("{:x} {:x} {} 0\n", addr, size / 2, 100 + i));
             s.push_str(&format!("{:x} {:x} {} 1\n", addr + size / 2, size - size / 2, 200 + i));
@@ -635,6 +668,29 @@ pub fn gen_world(opts: &WorldOpts) -> World {
             }
         }
         modules.push(m);
+    }
+    // twins: two modules with one debug identity (the same PDB70 record) under different file
+    // names — one binary mapped or copied under two names.  They are distinct modules (own
+    // lookups, own statistics); where the symbol supply is keyed by the debug identity (HTTP)
+    // they get the same symbol file.
+    if modules.len() >= 2 && chance("dump.mod.twin", 1, 5) {
+        let j = modules.len() - 1;
+        if modules[0].has_cv && modules[j].has_cv && !modules[0].elf_build_id && !modules[j].elf_build_id && !modules[0].code_lookup && !modules[j].code_lookup && modules[0].code_file != modules[j].code_file {
+            probe("e4.twin_modules");
+            let (df, guid, age, rel) = (modules[0].debug_file.clone(), modules[0].guid, modules[0].age, modules[0].rel.clone());
+            let m = &mut modules[j];
+            m.debug_file = df;
+            m.guid = guid;
+            m.age = age;
+            m.rel = rel;
+            if opts.need_debug_ids {
+                let (sym, kind, hot) = (modules[0].sym.clone(), modules[0].sym_kind, modules[0].hot.clone());
+                let m = &mut modules[j];
+                m.sym = sym;
+                m.sym_kind = kind;
+                m.hot = hot;
+            }
+        }
     }
     // adversarial: the last module sits at the very top of the address space
     if adv && chance("dump.mod.top_of_space", 1, 6) {
@@ -1039,12 +1095,16 @@ pub fn gen_world(opts: &WorldOpts) -> World {
     }
     if streams & 8 != 0 || flip_stack.is_some() {
         // memory info list, with extreme ranges when adversarial
-        let regions: [(u64, u64, u32); 5] = [
+        let regions: [(u64, u64, u32); 9] = [
             (0x80000, 0x80000, 0x04),
             (flip_stack.unwrap_or(t_sp(&threads[0])) & !0xfff, 0x4000, if flip_stack.is_some() { 0x04 } else { 0x104 }),
             (u64::MAX - 0xfff, 0x1000, 0x01),
             (0x7000_0000_0000, u64::MAX, 0x20),
             (0, 0x1000, 0x01),
+            (0x81000, 0, 0x01),
+            (0, 0, 0x01),
+            (u64::MAX, 0, 0x04),
+            (u64::MAX, 1, 0x04),
         ];
         for (i, (base, size, prot)) in regions.iter().enumerate() {
             if i >= 2 && !(adv && chance("dump.meminfo.extreme", 1, 2)) {
@@ -1053,7 +1113,11 @@ pub fn gen_world(opts: &WorldOpts) -> World {
             synth = synth.add_memory_info(MemoryInfo::new(e, *base, *base, *prot, *size, 0x1000, *prot, 0x20000));
         }
     }
-    if streams & 16 != 0 && os == OsKind::Windows {
+    if streams & 16 != 0 && os == OsKind::Windows && chance("dump.handles.v2", 1, 2) {
+        probe("e4.handle_stream");
+        probe("e4.handle_stream_v2");
+        synth = synth.add_stream(handle_stream_v2(e, adv));
+    } else if streams & 16 != 0 && os == OsKind::Windows {
         probe("e4.handle_stream");
         let tn = DumpString::new("File", e);
         let on = DumpString::new("\\Device\\HarddiskVolume1\\x", e);
@@ -1238,6 +1302,54 @@ pub fn storage_fault(dump: &mut Vec<u8>) -> &'static str {
 fn rd32(b: &[u8], at: usize) -> Option<u32> {
     let be = BIG_ENDIAN.with(|b| b.get());
     b.get(at..at + 4).map(|x| if be { u32::from_be_bytes(x.try_into().unwrap()) } else { u32::from_le_bytes(x.try_into().unwrap()) })
+}
+
+/// `HandleDataStream` with `MINIDUMP_HANDLE_DESCRIPTOR_2` entries, each with a chain of
+/// `MINIDUMP_HANDLE_OBJECT_INFORMATION` elements linked by RVA.  Adversarial worlds draw the
+/// chains a damaged writer or a flipped bit produces: an element type nobody knows, a chain
+/// that points back into itself, a link outside the file.
+fn handle_stream_v2(e: Endian, adv: bool) -> SimpleStream {
+    let stream_type = md::MINIDUMP_STREAM_TYPE::HandleDataStream as u32;
+    let ndesc = 1 + ch("dump.handles.n", 3) as usize;
+    let shape = if adv { ch("dump.handles.shape", 8) } else { 0 };
+    let declared = match shape {
+        1 => u32::MAX,
+        2 => 0,
+        _ => ndesc as u32,
+    };
+    let desc_size: u32 = if shape == 3 { 36 } else { 40 };
+    let mut sec = Section::with_endian(e).D32(16).D32(desc_size).D32(declared).D32(0);
+    // chains: per descriptor 0-3 elements, each with a label
+    let chains: Vec<Vec<Label>> = (0..ndesc).map(|_| (0..ch("dump.handles.chain", 4)).map(|_| Label::new()).collect()).collect();
+    for (i, chain) in chains.iter().enumerate() {
+        sec = sec.D64(4 * (i as u64 + 1)).D32(0).D32(0).D32(0).D32(0x12019f).D32(2).D32(65);
+        sec = match chain.first() {
+            Some(l) => sec.D32(l),
+            None => sec.D32(if shape == 4 { 0xffff_fff0u32 } else { 0 }),
+        };
+        sec = sec.D32(0);
+    }
+    for chain in &chains {
+        for (k, l) in chain.iter().enumerate() {
+            sec = sec.mark(l);
+            let last = k + 1 == chain.len();
+            // next_info_rva
+            sec = if !last {
+                sec.D32(&chain[k + 1])
+            } else {
+                match shape {
+                    5 => sec.D32(l),          // the last element points at itself
+                    6 => sec.D32(&chain[0]),  // ... or back at the head of its chain
+                    7 => sec.D32(0x7fff_fff0u32),
+                    _ => sec.D32(0),
+                }
+            };
+            // info_type, size_of_info, payload
+            let ty: u32 = if adv && chance("dump.handles.unknown_type", 1, 4) { [9u32, 10, 0x1234, u32::MAX][ch("dump.handles.type_x", 4) as usize] } else { 1 + ch("dump.handles.type", 8) };
+            sec = sec.D32(ty).D32(12 + 8).D64(0x1122_3344_5566_7788);
+        }
+    }
+    SimpleStream { stream_type, section: sec }
 }
 
 /// `MozMacosCrashInfoStream`: a header with up to 20 record locations and the records themselves
